@@ -176,6 +176,8 @@ class Engine:
 
     def truth(self, st, v):
         ty = v.ty
+        if ty == BYTES:
+            return v.z[2].z > 0
         if ty == BOOL:
             return v.z
         if ty == INT:
@@ -438,9 +440,9 @@ class Engine:
             return mk_str(z3.Concat(a.z, b.z))
         if a.ty == BYTES and b.ty == INT and isinstance(op, ast.Mult):
             kind, first, n = a.z
-            kz = z3.simplify(kind.z)
-            if not (z3.is_int_value(kz) and kz.as_long() == 1):
-                raise OutOfSubset("repetition of bytes other than a filler character")
+            # only runs of one filler character can be repeated in the abstract bytes model
+            self.oblige(s, "bytes-repetition-of-a-filler-run", "safety", kind.z == 1, line)
+            s.assume(kind.z == 1)
             return Val(BYTES, (kind, first, mk_int(z3.If(b.z < 0, 0, n.z * b.z))))
         raise OutOfSubset(f"binary op {type(op).__name__} on {a.ty},{b.ty} at L{line}")
 
@@ -491,6 +493,8 @@ class Engine:
 
     def eq(self, s, a, b):
         """Python == as a formula"""
+        if a.ty == BYTES or b.ty == BYTES:
+            raise OutOfSubset("comparison of abstract bytes values")
         if a.ty == NONE or b.ty == NONE:
             return self.is_(s, a, b)
         if isinstance(a.ty, TRow) and isinstance(b.ty, TRow):
@@ -559,6 +563,8 @@ class Engine:
 
     def contains(self, s, container, item, line):
         ty = container.ty
+        if ty == BYTES:
+            raise OutOfSubset(f"membership in an abstract bytes value at L{line}")
         if isinstance(ty, TTuple):
             return z3.Or(*[self.eq(s, item, x) for x in container.z]) if container.z else z3.BoolVal(False)
         if ty == STRSEQ and item.ty == STR:
@@ -737,6 +743,8 @@ class Engine:
 
     def subscript(self, s, c, i, exc, line):
         ty = c.ty
+        if ty == BYTES:
+            raise OutOfSubset(f"subscript of an abstract bytes value at L{line}")
         if isinstance(ty, TList) and i.ty == INT:
             lv = ListView(s, c.z, ty.elem)
             n = lv.len
@@ -1273,6 +1281,8 @@ class Engine:
             raise OutOfSubset(f"isinstance on {x.ty}")
         if name == "len":
             (x,) = pos
+            if x.ty == BYTES:
+                return [(s, x.z[2])]
             if isinstance(x.ty, TList):
                 return [(s, mk_int(ListView(s, x.z, x.ty.elem).len))]
             if isinstance(x.ty, TTuple):
@@ -1460,6 +1470,10 @@ class Engine:
                 raise OutOfSubset(f"extend of a str list with {x.ty}")
             self.assign_name(s, tgt.id, Val(STRLIST, z3.Concat(recv.z, add)))
             return [(s, NONE_VAL)]
+        if ty == STR and name == "encode" and not pos:
+            n = smt.fresh("enc.len", smt.Int)
+            s.assume(n >= 0)
+            return [(s, Val(BYTES, (mk_int(4), mk_int(0), mk_int(n))))]  # kind 4: encoded text (record header)
         if ty == STR and name == "join":
             (x,) = pos
             if x.ty in (STRLIST, STRSEQ):
@@ -1638,6 +1652,8 @@ class Engine:
             self.assign_name(s, t.id, v)
             return [s]
         if isinstance(t, ast.Tuple):
+            if v.ty == BYTES:
+                raise OutOfSubset("unpacking of an abstract bytes value")
             if isinstance(v.ty, TTuple):
                 if len(v.z) != len(t.elts):
                     raise OutOfSubset("unpacking arity")
@@ -1887,6 +1903,7 @@ class Engine:
         for h in hidden:
             mod_locals.add((st.cur, h))
         # 3. havoc
+        fresh_mark = smt._fresh_n[0]
         s = st.clone()
         for fi, name in sorted(mod_locals):
             cur = s.frames[fi].vars.get(name)
@@ -1896,13 +1913,25 @@ class Engine:
             if isinstance(ty, (TFunc, TConst)):
                 continue
             s.frames[fi].vars[name] = fresh_val(f"{name}.h{ordinal}", ty)
-        frame_allow = spec.frame(NS(s, {}), e_ns) if spec.frame else None
-        if frame_allow is None and mod_maps:
-            frame_allow = self.auto_frame(s, head, advance, body, ordinal, mod_maps)
+        frame_allow = self.auto_frame(s, head, advance, body, ordinal, mod_maps, fresh_mark) if mod_maps else {}
+        if spec.frame:
+            over = spec.frame(NS(s, {}), e_ns)
+            for k_, v_ in over.items():
+                if k_ in ("$free", "$fresh-only"):
+                    frame_allow.setdefault(k_, [])
+                    frame_allow[k_] = list(frame_allow[k_]) + list(v_)
+                else:
+                    frame_allow[k_] = v_
+            for nm in over.get("$fresh-only", []):
+                if nm in frame_allow.get("$free", []):
+                    frame_allow["$free"].remove(nm)
+        from .values import MAP_SORTS
+
         for name in sorted(mod_maps):
             old = entry.heap.get(name)
             if old is None:
-                old = entry.hmap(name, *_map_sorts(s.heap[name]))
+                # first touched inside the loop: its value at loop entry is the initial heap map
+                old = entry.hmap(name, *MAP_SORTS[name])
             new = smt.fresh(f"{name}.h{ordinal}", old.sort())
             s.heap[name] = new
         if allocs:
@@ -1958,7 +1987,7 @@ class Engine:
                     outs.append(oc)
         return outs + exc
 
-    def auto_frame(self, s, head, advance, body, ordinal, mod_maps):
+    def auto_frame(self, s, head, advance, body, ordinal, mod_maps, fresh_mark=0):
         """Default frame of a loop: a heap map written only at references that do not depend on
         anything the loop changes may change at those references only.  The frame is *proved* as part
         of the invariant (obligation loopN.frame[...]), so a wrong guess cannot make anything unsound."""
@@ -1979,15 +2008,20 @@ class Engine:
         finally:
             self.discovery -= 1
             self.disc_locals, self.disc_maps, self.disc_refs = saved
-        marker = f".h{ordinal}!"
         allow = {"$free": []}
+        import re as _re
+
+        def loop_variant(t):
+            # mentions a symbol created at or after the havoc of this loop (fresh symbols are numbered)
+            return any(int(n) > fresh_mark for n in _re.findall(r"!(\d+)", t.sexpr()))
+
         for name in mod_maps:
             ws = refs.get(name)
             if not ws or any(w is None for w in ws):
                 allow["$free"].append(name)
                 continue
             terms = [w for w in ws if not isinstance(w, str)]
-            if any(marker in t.sexpr() for t in terms):
+            if any(loop_variant(t) for t in terms):
                 allow["$free"].append(name)  # target depends on loop-variant state: spec must give the frame
                 continue
             uniq = []
@@ -2009,6 +2043,11 @@ class Engine:
             refs = None
             if allow is not None:
                 refs = allow.get(name)
+                if name in allow.get("$fresh-only", ()):
+                    # only objects allocated during this call are written: everything the caller can see is kept
+                    r = smt.fresh("r", smt.Int)
+                    out.append((name, z3.ForAll([r], z3.Implies(r < z3.Int("alloc@0"), new[r] == old[r]))))
+                    continue
                 if refs is None and name in allow.get("$free", ()):  # explicitly unconstrained
                     continue
             r = smt.fresh("r", smt.Int)
@@ -2105,7 +2144,18 @@ class Engine:
 
     def do_yield(self, y, st):
         if not self.gen_stack:
-            raise OutOfSubset("yield outside an inlined generator")
+            # the function under verification is itself a generator: "generator as the list of what it
+            # yields" (sound for consumers that do not share state with the generator body; the sharing
+            # is checked where the list is consumed)
+            ylist = st.frames[0].vars.get("_yields")
+            if ylist is None:
+                raise OutOfSubset("yield outside an inlined generator")
+            exc = []
+            outs = []
+            for s, v in self.ev(y.value, st, exc):
+                for s2, _ in self.builtin_method(s, ylist, "append", [v], {}, exc, y):
+                    outs.append(Outcome("normal", s2))
+            return outs + exc
         stmt, consumer, gframe = self.gen_stack[-1]
         exc = []
         outs = []
